@@ -33,7 +33,7 @@ def BOUNDS(tier):
 
 
 def REQUIRED_COVER(tier):
-    return {'ids:local>peer', 'ids:local<peer', 'ids:equal', 'pair:same-key', 'flip:sig', 'flip:msg', 'sign:resplit', 'mnemonic:deviation', 'wallet-key', 'derive-history'}
+    return {'ids:local>peer', 'ids:local<peer', 'ids:equal', 'pair:same-key', 'flip:sig', 'flip:msg', 'sign:resplit', 'mnemonic:deviation', 'wallet-key', 'derive-history', 'sign:encoders', 'mnemonic:keeps-drawing'}
 
 
 # ------------------------------------------------------------------ reference derivations
@@ -154,6 +154,19 @@ def case_sign(rec, ik, mlen):
     if verify_sign(pk, msg, sig) is not True:
         rec.violation('sign:verify', f'own signature does not verify (key {ik}, {mlen} bytes)', 'case_sign', args)
         return
+    # every form of the signing helper: the `encoder` argument only changes the text form of the SAME 64-byte signature
+    import nacl.encoding as ne
+    for enc in (ne.RawEncoder, ne.HexEncoder, ne.Base16Encoder, ne.Base32Encoder, ne.Base64Encoder, ne.URLSafeBase64Encoder):
+        rec.trans()
+        try:
+            got = enc.decode(sign_message(msg, sk, enc))
+        except Exception as e:
+            rec.violation('sign:encoder', f'sign_message(encoder={enc.__name__}) raised {type(e).__name__}: {e}', 'case_sign', args)
+            continue
+        rec.covered('sign:encoders')
+        if got != want or verify_sign(pk, msg, got) is not True:
+            rec.violation('sign:encoder', f'sign_message(encoder={enc.__name__}) does not return the (encoded) Ed25519 signature: {len(got)} bytes after decoding, '
+                          f'verifies: {got == want}', 'case_sign', args)
 
     def rejects(p, m, s):
         rec.trans()
@@ -222,6 +235,10 @@ class Horizon(BaseException):
     pass
 
 
+DRY_WORD = 5          # 24 x words[5] is not a basic seed (asserted by the self-test)
+DRY_COUNTS = ['1', '2', '99', '100', '255', '256', '999', '1000', '1023', '1024', '1025', 'inf']
+
+
 class Scripted:
     """os.urandom replacement: draw k answers with `stream(k)`; deviations: {draw index: 2-byte value}"""
 
@@ -241,6 +258,14 @@ class Scripted:
             head = hashlib.sha256(f'{self.seed}|draw|{k}'.encode()).digest()[:2]
         elif self.stream == 'count':
             head = ((k * 7 + self.seed) % 65536).to_bytes(2, 'big')
+        elif self.stream.startswith('dry:'):
+            # the first N candidates (24 draws each) are one and the same word group that is NOT a basic seed, then the
+            # hash stream: the generator has to keep drawing for as long as it takes ('dry:inf' never yields one)
+            n_dry = self.stream.split(':')[1]
+            if n_dry == 'inf' or k < 24 * int(n_dry):
+                head = DRY_WORD.to_bytes(2, 'big')
+            else:
+                head = hashlib.sha256(f'{self.seed}|draw|{k}'.encode()).digest()[:2]
         else:
             raise ValueError(self.stream)
         out = head + hashlib.sha256(f'{self.seed}|pad|{k}'.encode()).digest()
@@ -270,7 +295,7 @@ def case_mnemonic(rec, stream, deviations, derive=False):
     if hashlib.sha256(' '.join(K.words).encode()).hexdigest() != WORDS_SHA256 or len(K.words) != 2048:
         rec.violation('mnemonic:wordlist', 'the word list is not the 2048-word BIP-39 English list', 'case_mnemonic', args)
         return
-    src = Scripted(rec.seed, stream, dev, 40000)
+    src = Scripted(rec.seed, stream, dev, 40000 if rec.tier == 'quick' or not stream.startswith('dry') else 400000)
     real = K.os.urandom
     K.os.urandom = src
     try:
@@ -278,6 +303,8 @@ def case_mnemonic(rec, stream, deviations, derive=False):
             with rec.limit(120):
                 words = K.mnemonic_new()
         except Horizon:
+            if stream == 'dry:inf':
+                rec.covered('mnemonic:keeps-drawing')      # no basic seed ever comes: never returning (an invalid mnemonic) is the only right answer
             rec.outcome('horizon')
             return
         except engine.CaseTimeout:
@@ -392,12 +419,23 @@ def shard_mnemonic(rec, stream, k, part, parts):
     rec.sample({'stream': stream, 'deviations': {'3': 0x07ff}, 'oracle': 'first basic-seed group of the scripted stream'})
 
 
+def selftest():
+    import os
+    from .. import repo
+    # the dry word group really is not a basic seed (reference rule, the library's own word list file)
+    import importlib
+    K = importlib.import_module('pytoniq_core.crypto.keys')
+    assert not ref_basic_seed([K.words[DRY_WORD]] * 24), 'choose another DRY_WORD'
+
+
 def shards(tier, seed):
     out = [{'fn': 'shard_channels', 'args': {'ia': i}} for i in range(6)]
     out.append({'fn': 'shard_sign', 'args': {}})
     out.append({'fn': 'case_derive_history', 'args': {}, 'prio': 5})
     k = 1 if tier == 'quick' else 2
     parts = 12 if tier == 'quick' else 60
+    for n_dry in DRY_COUNTS:
+        out.append({'fn': 'shard_mnemonic', 'args': {'stream': f'dry:{n_dry}', 'k': 0, 'part': 0, 'parts': 1}, 'prio': 4})
     for stream in ('hash', 'count'):
         if tier == 'quick' and stream == 'count':
             out.append({'fn': 'shard_mnemonic', 'args': {'stream': stream, 'k': 0, 'part': 0, 'parts': 1}, 'prio': 3})
